@@ -9,12 +9,13 @@ from .pdb import VERIF, loc
 
 class Result:
     """One evaluated rule instance."""
-    __slots__ = ("key", "rule", "status", "where", "msg", "nontrivial", "proof")
+    __slots__ = ("key", "rule", "status", "where", "msg", "nontrivial", "proof", "fn")
 
-    def __init__(self, key, rule, status, where="", msg="", nontrivial=True, proof=False):
+    def __init__(self, key, rule, status, where="", msg="", nontrivial=True, proof=False, fn=None):
         assert status in ("ok", "violation", "missing-anchor", "info")
         self.key, self.rule, self.status, self.where, self.msg = key, rule, status, where, msg
         self.nontrivial, self.proof = nontrivial, proof
+        self.fn = fn          # canonical path of the function the instance is anchored in (when known)
 
     def as_dict(self):
         return {"key": self.key, "rule": self.rule, "verdict": self.status, "where": self.where, "detail": self.msg}
@@ -33,7 +34,8 @@ class Report:
         if status is None:
             status = "ok" if ok else "violation"
         w = where if where is not None else (loc(node) if node is not None else "")
-        self.results.append(Result("%s/%s" % (self.prop, key), rule, status, w, msg, nontrivial, proof))
+        f = node.get("_fn") if isinstance(node, dict) else None
+        self.results.append(Result("%s/%s" % (self.prop, key), rule, status, w, msg, nontrivial, proof, fn=f["path"] if f else None))
         return status == "ok"
 
     def ok(self, key, rule, node=None, msg="", **kw):
